@@ -21,7 +21,7 @@ MANIFEST = {
             "tied to app.go on every run by replaying sequenced event histories of the real App.Close (blocking and "
             "failing closers, closers of distinct zero-size types and struct-plus-first-field closers that share one address, "
             "GOMAXPROCS 1/2/default; Close invoked after Run returned, while Run is still inside callRunners with a blocking "
-            "runner, and by a runner itself) through the model's executable trace acceptor (vm_compute)",
+            "runner, and by a runner itself) through the model's executable trace acceptor (vm_compute); overlapping Close calls on one App (Model/ConcMulti.v, product of independent close programs: c14_overlapping_closes, c14_overlapping_at_most_once, c14_overlapping_no_deadlock, acceptor multi_accepts exact) and closers handed over through app.Settings next to run options",
     "design_ref": "DESIGN.md 5 C14",
     "note": "modelled, not verified: Go scheduler, sync.WaitGroup, go statement; the theorems cover all interleavings of the "
             "modelled atomic steps; a panicking closer is outside the property (it kills the process)",
